@@ -517,7 +517,7 @@ def run_check(pid, tier, keep=False, only=None, dev_group=None):
             from registry import GROUPS
             group = GROUPS[gname]
             hs = harness_list(group, tier)
-            if not dev_group:
+            if not dev_group and not (prop.get("all_harnesses") and gname in prop.get("all_harnesses")):
                 hs = [(n, s) for n, s in hs if pid in s.get("props", [pid])]
             if only:
                 hs = [(n, s) for n, s in hs if n in only]
